@@ -94,6 +94,9 @@ type ProviderSpec struct {
 type Return struct {
 	Type        types.Type
 	ASTTypeExpr ast.Expr
+	// ReferencedImports are the imports the type expression itself mentions. It is printed as
+	// the user wrote it, which need not be how the supplying provider spells its result.
+	ReferencedImports map[string]*Import
 }
 
 // BuildDirective represents a kessoku.Inject call.
